@@ -119,6 +119,9 @@ pub fn quiet_panics() {
         } else {
             "?".to_string()
         };
+        if std::thread::current().name() == Some("main") {
+            eprintln!("harness panic: {} at {}", msg, loc);
+        }
         *LAST_PANIC.lock().unwrap() = format!("{} at {}", msg, loc);
     }));
 }
